@@ -348,6 +348,61 @@ Section Cluster.
 End Cluster.
 
 (* ------------------------------------------------------------------ *)
+(* partial_cluster for ANY clustering routine (cluster_method = 'mcl', 'infomap',
+   external_function, or the flat linkage methods): the routine is a function
+   [clus] from the concept's matrix to the dictionary c it returns with
+   revert=True (position -> cluster id).  Everything else is as above. *)
+
+Definition ids_from (post : bool) (rv : list (nat * nat)) (words : list nat) (m : mat) (k : nat)
+  : option (list nat) :=
+  let n := length m in
+  match ids_before rv n k with
+  | None => None
+  | Some ids => Some (if post then post_ids (le_mean m) words ids n k else ids)
+  end.
+
+(* the dictionary of the flat linkage methods *)
+Definition flat_revert (cf : config) (m : mat) : list (nat * nat) :=
+  revert (flat_cluster (c_meth cf) (c_thr cf) (if c_ward cf then ward_matrix m else m)).
+
+Section ClusterAny.
+  Variable dist : list Z -> list Z -> ores.
+  Variable imap post : bool.
+  Variable clus : mat -> list (nat * nat).
+
+  Definition cluster_concept_any (c : concept) (k : nat) : res (list (nat * list nat)) :=
+    match concept_matrix dist imap c with
+    | Ok m =>
+        let words := map e_word (tracer c) in
+        match ids_from post (clus m) words m k with
+        | Some ids => Ok (concept_out c words ids)
+        | None => Raised 3
+        end
+    | Raised e => Raised e
+    | OracleMiss => OracleMiss
+    end.
+
+  Fixpoint cluster_loop_any (cs : list concept) (k : nat) : res (list (list (nat * list nat))) :=
+    match cs with
+    | [] => Ok []
+    | c :: tl =>
+        match cluster_concept_any c k with
+        | Ok o =>
+            match cluster_loop_any tl (k + length (tracer c) + 1) with
+            | Ok os => Ok (o :: os)
+            | Raised e => Raised e
+            | OracleMiss => OracleMiss
+            end
+        | Raised e => Raised e
+        | OracleMiss => OracleMiss
+        end
+    end.
+
+  Definition partial_cluster_any (wl : list concept) : res (list (list (nat * list nat))) :=
+    cluster_loop_any wl 0.
+End ClusterAny.
+
+(* ------------------------------------------------------------------ *)
 (* add_cognate_ids *)
 
 Definition seq_eqb : list nat -> list nat -> bool := list_eqb Nat.eqb.
